@@ -1,17 +1,17 @@
 """
 M5 correspondence + monitors for C10/C11/C12: the REAL mo_threads.threads (Thread, MainThread, join_all_threads,
-start_main_thread, the real timer daemon) under the deterministic scheduler.
-A scenario is a tree of thread programs; the main virtual thread plays the process' main thread.
+start_main_thread, the real timer daemon) under the deterministic scheduler, against Model/ThreadTree.lean.
+A scenario is a tree of thread programs; the virtual thread "main" plays the process' main thread (node 0).
 """
 import sys
 
 from . import detsched as ds
 
 TIMERS = "timers daemon"
+VALUES = [None, 0, 1, 7, "x", [1, 2], {"a": 1}, False, ""]
 
 
 def gen_program(rng, depth, budget, prop):
-    """a thread program: list of actions executed by the thread's target"""
     acts = []
     nkids = 0
     n = rng.randint(0, 3 if depth < 2 else (1 if depth < 3 else 0))
@@ -33,7 +33,7 @@ def gen_program(rng, depth, budget, prop):
     if rng.random() < 0.3:
         acts.append(["raise"])
     else:
-        acts.append(["ret", rng.choice([None, 0, 1, 7, "x", [1, 2], {"a": 1}, False, ""])])
+        acts.append(["ret", rng.randrange(len(VALUES))])
     return acts
 
 
@@ -74,14 +74,144 @@ class TargetFailure(Exception):
     pass
 
 
+def vidx(r):
+    """index of a returned value in VALUES (0/False and 1/True are different values)"""
+    for i, v in enumerate(VALUES):
+        if type(v) is type(r) and v == r:
+            return i
+    return 99
+
+
+def _node_of(obj):
+    """node id of a thread object: MainThread -> 0, Thread named n<k> -> k, anything else -> None"""
+    n = getattr(getattr(obj, "threading_thread", None), "name", None)
+    if n is None:
+        return None
+    if n in ("Main Thread", "MainThread"):
+        return 0
+    if n.startswith("n") and n[1:].isdigit():
+        return int(n[1:])
+    return None
+
+
+def _me_node():
+    vt = ds.CUR.me() if ds.CUR is not None else None
+    if vt is None:
+        return None
+    if vt.name == "main":
+        return 0
+    if vt.name.startswith("n") and vt.name[1:].isdigit():
+        return int(vt.name[1:])
+    return None
+
+
+class ChildrenSlot(object):
+    """descriptor for BaseThread.children: logs snapshots / registrations / removals with their call site"""
+
+    def __init__(self, desc):
+        self.desc = desc
+
+    def __get__(self, obj, typ=None):
+        if obj is None:
+            return self
+        v = self.desc.__get__(obj, typ)
+        s = ds.CUR
+        if s is None or s.me() is None:
+            return v
+        p = _node_of(obj)
+        me = _me_node()
+        if p is None or me is None:
+            return v
+        f = sys._getframe(1)
+        fn = f.f_code.co_name
+        cur = [x for x in (_node_of(c) for c in v) if x is not None]
+        if fn == "add_child":
+            c = _node_of(f.f_locals.get("child"))
+            if c is not None:
+                s.emit("m5", "reg", c, p)
+        elif fn == "remove_child":
+            c = _node_of(f.f_locals.get("child"))
+            if c is not None:
+                s.emit("m5", "unreg", c, p, c in cur)
+        elif fn in ("stop", "join"):
+            s.emit("m5", "snap", p, cur)
+        elif fn == "_run":
+            if f.f_locals.get("self") is obj:
+                s.emit("m5", "snap", p, cur)
+            else:
+                s.emit("m5", "peek", p)
+        return v
+
+    def __set__(self, obj, value):
+        self.desc.__set__(obj, value)
+        s = ds.CUR
+        if s is None or s.me() is None:
+            return
+        p = _node_of(obj) if hasattr(obj, "threading_thread") else None
+        if p is not None and sys._getframe(1).f_code.co_name == "_run":
+            s.emit("m5", "clear", p)
+
+
+class TracedAll(dict):
+    def __setitem__(self, k, v):
+        dict.__setitem__(self, k, v)
+        s = ds.CUR
+        n = _node_of(v)
+        if s is not None and s.me() is not None and n is not None:
+            s.emit("m5", "all+", n)
+
+    def __delitem__(self, k):
+        v = dict.get(self, k)
+        dict.__delitem__(self, k)
+        s = ds.CUR
+        n = _node_of(v) if v is not None else None
+        if s is not None and s.me() is not None and n is not None:
+            s.emit("m5", "all-", n)
+
+
 def run_scenario(sc, chooser=None, seed=0, max_steps=30000):
     ds.install()
     ds.reset_globals()
     from mo_threads import threads, till, signals
-    from mo_logs import logger
     sched = ds.Sched(chooser=chooser, seed=seed, max_steps=max_steps, horizon=3.0)
-    st = {"viol": [], "nodes": {}, "next": 0, "kids": {}, "registered_under": {}, "outcome": {}, "join_results": [],
-          "stop_checks": [], "order": [], "targets_done": 0}
+    st = {"viol": [], "nodes": {}, "next": 1, "kids": {}, "outcome": {}, "join_results": [], "order": [], "targets_done": 0,
+          "tills": 0, "seen": 0}
+    RealSignal = signals.Signal
+
+    class NodeSignal(RealSignal):
+        """signals created by threads.py: tagged from their name; `if not self.stopped` inside join() is logged"""
+        __slots__ = ["_vkind", "_vnode"]
+
+        def __init__(self, name=None):
+            RealSignal.__init__(self, name)
+            self._vkind = None
+            self._vnode = None
+            if isinstance(name, str):
+                for pre, kind in (("please_stop for n", "pstop"), ("joining with n", "joiner"), ("stopped signal for n", "stopped")):
+                    if name.startswith(pre) and name[len(pre):].isdigit():
+                        self._vkind, self._vnode = kind, int(name[len(pre):])
+                        sched.trace(self, "%s%d" % (kind, self._vnode))
+
+        def __bool__(self):
+            v = ds.raw(self, "_go")
+            if self._vkind == "stopped" and sys._getframe(1).f_code.co_name == "join":
+                s = ds.CUR
+                if s is not None and s.me() is not None:
+                    s.yield_point(("Rstopped", self))
+                    v = ds.raw(self, "_go")
+                    s.emit("m5", "waited", self._vnode, bool(v))
+            return v
+
+    old_signal = threads.Signal
+    threads.Signal = NodeSignal
+    old_children = threads.BaseThread.__dict__["children"]
+    threads.BaseThread.children = ChildrenSlot(old_children.desc if isinstance(old_children, ChildrenSlot) else old_children)
+    threads.ALL = TracedAll()
+    try:
+        from mo_threads import processes
+        processes.ALL = threads.ALL
+    except Exception:
+        pass
 
     orig_shim_start = ds.ShimThread.start
 
@@ -92,163 +222,169 @@ def run_scenario(sc, chooser=None, seed=0, max_steps=30000):
         return orig_shim_start(self)
     ds.ShimThread.start = shim_start
 
-    def tag_thread(th, nid):
-        st["nodes"][nid] = th
-        th._verif_id = nid if False else None   # Thread has __slots__? BaseThread only; Thread is a normal class
-
-    def descendants(th):
-        out = []
-        for c in list(ds.raw(th, "children")):
-            out.append(c)
-            if isinstance(c, threads.Thread):
-                out.extend(descendants(c))
-        return out
-
     def make_target(nid, prog):
         def target(please_stop):
             kids = []
             for a in prog:
-                if a[0] == "spawn":
-                    kids.append(spawn(a[1], nid))
-                elif a[0] == "join":
-                    do_join(nid, kids[a[1]], a)
-                elif a[0] == "release":
-                    kids[a[1]][1].release()
-                elif a[0] == "stop":
-                    if len(a) > 2:
-                        need = a[2]
-                        t0 = sched.clock
-                        sched.wait_cond(lambda: st["targets_done"] >= need or sched.clock >= t0 + 0.2)
-                    do_stop(nid, kids[a[1]])
-                elif a[0] == "wait_stop":
-                    (please_stop | till.Till(seconds=0.3)).wait()
-                elif a[0] == "raise":
-                    st["outcome"][nid] = ("fail", None)
-                    st["targets_done"] += 1
-                    raise TargetFailure("node %d fails" % nid)
-                elif a[0] == "ret":
-                    st["outcome"][nid] = ("ok", a[1])
-                    st["targets_done"] += 1
-                    return a[1]
+                run_action(nid, a, kids, please_stop)
+                if a[0] == "ret":
+                    return VALUES[a[1]]
         target.__name__ = "target%d" % nid
         return target
 
     def spawn(prog, parent_nid):
         nid = st["next"]
         st["next"] += 1
+        sched.note("call", parent_nid, "spawn")
+        st["kids"].setdefault(parent_nid, []).append(nid)
         th = threads.Thread.run("n%d" % nid, make_target(nid, prog))
         st["nodes"][nid] = th
-        st["kids"].setdefault(parent_nid, []).append(nid)
-        st["parent"] = st.get("parent", {})
-        st["parent"][nid] = parent_nid
-        sched.trace(th.stopped, "stopped%d" % nid)
-        sched.trace(th.please_stop, "pstop%d" % nid)
+        sched.note("ret", parent_nid, "spawn", "done")
         return (nid, th)
 
     def do_join(caller, kid, a):
         nid, th = kid
         till_sig = None
         timed = len(a) > 2
+        tl = "-"
         if timed:
-            till_sig = signals.Signal("jt")
+            x = st["tills"]
+            st["tills"] += 1
+            tl = str(x)
+            till_sig = RealSignal("jt%d" % x)
             if a[2] == 1:
+                sched.note("env", "fire", x)
                 till_sig.go()
+        sched.note("call", caller, "join", nid, tl)
         try:
             r = th.join(till=till_sig) if timed else th.join()
             stopped = bool(ds.raw(th.stopped, "_go"))
             st["join_results"].append((caller, nid, "ret", r, stopped, timed))
+            sched.note("ret", caller, "join", "value", vidx(r))
         except ds.SchedAbort:
             raise
         except BaseException as e:   # noqa
             stopped = bool(ds.raw(th.stopped, "_go"))
             st["join_results"].append((caller, nid, "raise", e, stopped, timed))
+            sched.note("ret", caller, "join", "raised" if stopped else "timeout")
 
-    def do_stop(caller, kid):
-        nid, th = kid
+    def subtree(nid):
         ids = [nid]
         todo = list(st["kids"].get(nid, []))
         while todo:
             c = todo.pop()
             ids.append(c)
             todo.extend(st["kids"].get(c, []))
-        before = [st["nodes"][i] for i in ids if i in st["nodes"] and not ds.raw(st["nodes"][i].stopped, "_go")]
+        return ids
+
+    def do_stop(caller, kid, a):
+        nid, th = kid
+        if len(a) > 2:
+            need = a[2]
+            t0 = sched.clock
+            sched.wait_cond(lambda: st["targets_done"] >= need or sched.clock >= t0 + 0.2)
+        before = [st["nodes"][i] for i in subtree(nid) if i in st["nodes"] and not ds.raw(st["nodes"][i].stopped, "_go")]
+        sched.note("call", caller, "stop", nid)
         th.stop()
-        missing = [getattr(x, "name", "?") for x in before if not ds.raw(x.please_stop, "_go") and not ds.raw(x.stopped, "_go")]
+        sched.note("ret", caller, "stop", "done")
+        missing = [x.name for x in before if not ds.raw(x.please_stop, "_go") and not ds.raw(x.stopped, "_go")]
         if missing:
             st["viol"].append("C11: stop() of n%d returned but please_stop is still false for %s (registered under it when stop() was called)" % (nid, missing))
 
+    def run_action(nid, a, kids, please_stop):
+        if a[0] == "spawn":
+            kids.append(spawn(a[1], nid))
+        elif a[0] == "join":
+            do_join(nid, kids[a[1]], a)
+        elif a[0] == "release":
+            sched.note("call", nid, "release", kids[a[1]][0])
+            kids[a[1]][1].release()
+            sched.note("ret", nid, "release", "done")
+        elif a[0] == "stop":
+            do_stop(nid, kids[a[1]], a)
+        elif a[0] == "wait_stop":
+            (please_stop | till.Till(seconds=0.3)).wait()
+        elif a[0] == "raise":
+            st["outcome"][nid] = ("fail", None)
+            st["targets_done"] += 1
+            sched.note("call", nid, "finish", "fail")
+            raise TargetFailure("node %d fails" % nid)
+        elif a[0] == "ret":
+            st["outcome"][nid] = ("ok", VALUES[a[1]])
+            st["targets_done"] += 1
+            sched.note("call", nid, "finish", "ok", a[1])
+        elif a[0] == "join_all":
+            ids = [k[0] for k in kids]
+            sched.note("call", nid, "join_all", ",".join(str(i) for i in ids) or "-", "-")
+            try:
+                res = threads.join_all_threads([k[1] for k in kids])
+                st["join_results"].append((nid, ids, "all_ret", res, True, False))
+                sched.note("ret", nid, "join_all", "values", "[" + ",".join(
+                    str(vidx(r)) if st["outcome"].get(i, ("", 0))[0] == "ok" else "-" for i, r in zip(ids, res)) + "]")
+            except ds.SchedAbort:
+                raise
+            except BaseException as e:   # noqa
+                st["join_results"].append((nid, ids, "all_raise", e, True, False))
+                sched.note("ret", nid, "join_all", "allraised")
+        elif a[0] == "main_stop":
+            main = threads.MAIN_THREAD
+            sched.note("call", 0, "main_stop")
+            try:
+                main.stop()
+                st["main_stop"] = "ok"
+                sched.note("ret", 0, "main_stop", "done")
+            except ds.SchedAbort:
+                raise
+            except BaseException as e:   # noqa
+                st["main_stop"] = e
+                sched.note("ret", 0, "main_stop", "allraised")
+            residue = [t.name for t in threads.ALL.values()]
+            if residue:
+                st["viol"].append("C11: threads %s are still registered after MainThread.stop()" % residue)
+            for nid2, th in st["nodes"].items():
+                if not ds.raw(th.stopped, "_go"):
+                    st["viol"].append("C11: thread n%d has not stopped after MainThread.stop() returned" % nid2)
+            failed = [i for i, oc in st["outcome"].items() if oc[0] == "fail"]
+            if failed and st["main_stop"] == "ok" and any(i in st["kids"].get(0, []) and not _was_joined(st, i) for i in failed):
+                st["viol"].append("C11: MainThread.stop() swallowed the failure of %s" % failed)
+
     def main_body():
         threads.start_main_thread()
-        main = threads.MAIN_THREAD
+        sched.trace(threads.MAIN_THREAD.please_stop, "pstop0")
         kids = []
         for a in sc["main"]:
-            if a[0] == "spawn":
-                kids.append(spawn(a[1], -1))
-            elif a[0] == "join":
-                do_join(-1, kids[a[1]], a)
-            elif a[0] == "release":
-                kids[a[1]][1].release()
-            elif a[0] == "stop":
-                if len(a) > 2:
-                    need = a[2]
-                    t0 = sched.clock
-                    sched.wait_cond(lambda: st["targets_done"] >= need or sched.clock >= t0 + 0.2)
-                do_stop(-1, kids[a[1]])
-            elif a[0] == "join_all":
-                try:
-                    res = threads.join_all_threads([k[1] for k in kids])
-                    st["join_results"].append((-1, [k[0] for k in kids], "all_ret", res, True, False))
-                except ds.SchedAbort:
-                    raise
-                except BaseException as e:   # noqa
-                    st["join_results"].append((-1, [k[0] for k in kids], "all_raise", e, True, False))
-            elif a[0] == "main_stop":
-                try:
-                    main.stop()
-                    st["main_stop"] = "ok"
-                except ds.SchedAbort:
-                    raise
-                except BaseException as e:   # noqa
-                    st["main_stop"] = e
-                residue = [t.name for t in threads.ALL.values()]
-                if residue:
-                    st["viol"].append("C11: threads %s are still registered after MainThread.stop()" % residue)
-                for nid, th in st["nodes"].items():
-                    if not ds.raw(th.stopped, "_go"):
-                        st["viol"].append("C11: thread n%d has not stopped after MainThread.stop() returned" % nid)
+            run_action(0, a, kids, threads.MAIN_THREAD.please_stop)
 
-    # C10 monitor: at the moment `stopped` of p becomes true, every thread registered under p (transitively) must have stopped
     def on_step(s, vt):
         evs = s.events
-        i = st.get("seen", 0)
+        i = st["seen"]
         while i < len(evs):
             ev = evs[i]
             i += 1
             if len(ev) >= 4 and ev[1] == "W" and ev[3] == "_go" and isinstance(ev[2], str) and ev[2].startswith("stopped"):
                 p = int(ev[2][7:])
-                st["order"].append(p)
-                todo = list(st["kids"].get(p, []))
-                while todo:
-                    c = todo.pop()
-                    todo.extend(st["kids"].get(c, []))
+                for c in subtree(p)[1:]:
                     th = st["nodes"].get(c)
                     if th is not None and not ds.raw(th.stopped, "_go"):
                         st["viol"].append("C10: `stopped` of n%d became true while its descendant n%d is still running" % (p, c))
         st["seen"] = i
 
     sched.on_step = on_step
-    logger_error = None
     mvt = sched.spawn("main", main_body)
     mvt.shim = ds._shim_main
     ds._shim_main.vt = mvt
     ds._shim_main._started = True
+    ds._shim_main.name = "MainThread"
     try:
         outcome = sched.run()
     finally:
         ds.ShimThread.start = orig_shim_start
-    stuck = [vt.name for vt in sched.stuck]
+        threads.Signal = old_signal
+        threads.BaseThread.children = old_children
+    stuck = sorted(x for x in ((0 if vt.name == "main" else (int(vt.name[1:]) if vt.name[1:].isdigit() else None)) for vt in sched.stuck) if x is not None)
+    lines = to_lines(sched.events)
+    lines.append(" ".join(["end", outcome] + [str(t) for t in stuck]))
     viol = st["viol"]
-    # C12: join results vs outcomes
     for (caller, nid, kind, val, stopped, timed) in st["join_results"]:
         if kind in ("ret", "raise"):
             oc = st["outcome"].get(nid)
@@ -263,17 +399,80 @@ def run_scenario(sc, chooser=None, seed=0, max_steps=30000):
                 if not timed and not stopped:
                     viol.append("C12: join() of n%d raised before the thread stopped" % nid)
                 if not timed and oc is not None and oc[0] == "ok" and not _descendant_failed(st, nid):
-                    viol.append("C12: join() of n%d raised (%r) although the target returned %r and no joined child failed" % (nid, str(val)[:80], oc[1]))
-                if oc is not None and oc[0] == "fail" and stopped and "node %d fails" % nid not in _chain(val):
-                    if not _descendant_failed(st, nid):
-                        viol.append("C12: join() of n%d raised without the target's exception in its cause chain: %s" % (nid, _chain(val)[:120]))
+                    viol.append("C12: join() of n%d raised (%s) although the target returned %r and no joined child failed" % (nid, str(val)[:80], oc[1]))
+                if oc is not None and oc[0] == "fail" and stopped and ("node %d fails" % nid) not in _chain(val) and not _descendant_failed(st, nid):
+                    viol.append("C12: join() of n%d raised without the target's exception in its cause chain: %s" % (nid, _chain(val)[:120]))
+        elif kind == "all_ret":
+            for i, r in zip(nid, val):
+                oc = st["outcome"].get(i)
+                if oc is not None and oc[0] == "ok" and r != oc[1]:
+                    viol.append("C12: join_all_threads returned %r for n%d whose target returned %r" % (r, i, oc[1]))
+                if oc is not None and oc[0] == "fail":
+                    viol.append("C12: join_all_threads did not report the failure of n%d" % i)
     if outcome == "stuck":
         viol.append("C10: threads %s never finished (stuck)" % stuck)
     for vt in sched.vts:
         if vt.exc is not None and not isinstance(vt.exc, TargetFailure):
             viol.append("unexpected exception in %s: %r" % (vt.name, vt.exc))
-    return {"lines": [], "outcome": outcome, "monitor": sorted(set(viol)), "choices": list(sched.choices), "steps": sched.steps,
+    return {"lines": lines, "outcome": outcome, "monitor": sorted(set(viol)), "choices": list(sched.choices), "steps": sched.steps,
             "switches": sched.context_switches, "stuck": stuck}
+
+
+def _was_joined(st, nid):
+    for (_, n, k, _, _, _) in st["join_results"]:
+        if isinstance(n, list):
+            if nid in n:
+                return True
+        elif n == nid:
+            return True
+    return False
+
+
+def to_lines(events):
+    lines = []
+
+    def who(name):
+        if name == "main":
+            return "0"
+        if name.startswith("n") and name[1:].isdigit():
+            return name[1:]
+        return None
+
+    def lst(v):
+        return "[" + ",".join(str(x) for x in v) + "]"
+    for ev in events:
+        if ev[0] == "-":
+            if ev[1] == "note":
+                lines.append(" ".join(str(w) for w in ev[2:]))
+            continue
+        t = who(ev[0])
+        if t is None:
+            continue
+        kind = ev[1]
+        if kind == "m5":
+            k = ev[2]
+            if k == "snap":
+                lines.append("step %s snap %d %s" % (t, ev[3], lst(ev[4])))
+            elif k == "reg":
+                lines.append("step %s reg %d %d" % (t, ev[3], ev[4]))
+            elif k == "unreg":
+                lines.append("step %s unreg %d %d %s" % (t, ev[3], ev[4], "True" if ev[5] else "False"))
+            elif k in ("clear", "peek", "all+", "all-"):
+                if k == "all+" and ev[3] == 0:
+                    continue       # start_main_thread registers the main thread: the model starts from there
+                lines.append("step %s %s %d" % (t, k, ev[3]))
+            elif k == "waited":
+                lines.append("step %s waited %d %s" % (t, ev[3], "True" if ev[4] else "False"))
+        elif kind == "W" and ev[3] == "_go":
+            tag = ev[2]
+            for pre in ("pstop", "stopped", "joiner"):
+                if isinstance(tag, str) and tag.startswith(pre) and tag[len(pre):].isdigit():
+                    lines.append("step %s %s %s" % (t, pre, tag[len(pre):]))
+        elif kind == "spawn":
+            nm = ev[2]
+            if nm.startswith("n") and nm[1:].isdigit():
+                lines.append("step %s start %s" % (t, nm[1:]))
+    return lines
 
 
 def _chain(e):
